@@ -733,35 +733,37 @@ def memory_reads(body, x, _seen=None):
     return out
 
 
-def init_value(body, t, _depth=0):
+def init_value(body, t, _depth=0, names=None):
     """replace ('var', name, local) nodes of mutable locals by the tree of their (single) initial definition:
     the value the variable was created with (e.g. the iterator a `for` loop pulls from)"""
     if not isinstance(t, tuple) or not t or _depth > 8:
         return t
     if t[0] == 'var' and len(t) >= 3:
+        if names is not None and t[1] not in names:
+            return t
         whole, partial = defs_of(body, t[2])
         if len(whole) == 1 and not partial:
             z = symbolizer(body)
             d = whole[0]
             r = simplify(z.rvalue(d.rv, 0, (t[2],)) if hasattr(d, 'rv') else z.call(d, 0, (t[2],)))
-            return init_value(body, r, _depth + 1)
+            return init_value(body, r, _depth + 1, names)
         return t
     if t[0] == 'call':
-        return ('call', t[1], tuple(init_value(body, a, _depth) for a in t[2])) + t[3:]
+        return ('call', t[1], tuple(init_value(body, a, _depth, names) for a in t[2])) + t[3:]
     if t[0] in ('field', 'variant', 'unwrap', 'discr', 'cast'):
-        return (t[0], init_value(body, t[1], _depth)) + t[2:]
+        return (t[0], init_value(body, t[1], _depth, names)) + t[2:]
     if t[0] == 'index':
-        return ('index', init_value(body, t[1], _depth), init_value(body, t[2], _depth))
+        return ('index', init_value(body, t[1], _depth, names), init_value(body, t[2], _depth, names))
     if t[0] == 'bin':
-        return ('bin', t[1], init_value(body, t[2], _depth), init_value(body, t[3], _depth))
+        return ('bin', t[1], init_value(body, t[2], _depth, names), init_value(body, t[3], _depth, names))
     if t[0] == 'agg':
-        return ('agg', t[1], t[2], tuple(init_value(body, a, _depth) for a in t[3]))
+        return ('agg', t[1], t[2], tuple(init_value(body, a, _depth, names) for a in t[3]))
     return t
 
 
 def loop_source(body, next_call):
     """tree of the iterator a `next()` call pulls from, with loop iterator variables expanded to their source"""
-    return init_value(body, sym(body, next_call.args[0]))
+    return init_value(body, sym(body, next_call.args[0]), 0, ('iter',))
 
 
 def const_str(t):
